@@ -96,13 +96,15 @@ def base_tuples(n_existing, max_bases):
     yield from itertools.product(range(n_existing), repeat=k)
 
 
-def exhaustive(n_user, max_bases):
+def exhaustive(n_user, max_bases, allow_repeats=True):
   """Every table with <= n_user user classes whose proper prefixes are all creatable in CPython and that is
   maximal (n_user classes, or its last class is refused).  Prefixes of a creatable table are covered by it."""
   out = []
   def rec(H):
     n = len(H)
     for bs in base_tuples(n, max_bases):
+      if not allow_repeats and len(set(bs)) != len(bs):
+        continue
       H2 = H + [list(bs)]
       _, fail, _ = cpython_table(H2)
       if fail is not None:
